@@ -65,7 +65,15 @@ async fn scenario(a: &ShardArgs, idx: u64) {
     let mut sim = OutSim::start_with(cfg.clone(), |db| {
         for i in 0..9u16 {
             let c = [EventClass::Class1, EventClass::Class2, EventClass::Class3][(i % 3) as usize];
-            db.add(i, Some(c), AnalogInputConfig::new(StaticAnalogInputVariation::Group30Var1, EventAnalogInputVariation::Group32Var3, 0.0));
+            db.add(
+                i,
+                Some(c),
+                AnalogInputConfig::new(
+                    StaticAnalogInputVariation::Group30Var1,
+                    EventAnalogInputVariation::Group32Var3,
+                    0.0,
+                ),
+            );
         }
     })
     .await;
@@ -81,7 +89,10 @@ async fn scenario(a: &ShardArgs, idx: u64) {
     macro_rules! collect {
         () => {{
             for x in sim.collect() {
-                if let Rx::Fragment { ord, t_ms, bytes, .. } = x {
+                if let Rx::Fragment {
+                    ord, t_ms, bytes, ..
+                } = x
+                {
                     if bytes.len() >= 4 && bytes[1] == ra::F_UNSOL_RESPONSE {
                         let mut classes = vec![];
                         if let Ok((ms, _)) = ra::decode_response_measurements(&bytes[4..]) {
@@ -89,11 +100,30 @@ async fn scenario(a: &ShardArgs, idx: u64) {
                                 classes.push((m.index % 3) as u8 + 1);
                             }
                         }
-                        hist.push(format!("t={t_ms} <- unsol seq={} {} classes={classes:?}", bytes[0] & 15, if bytes.len() == 4 { "null" } else { "data" }));
-                        txs.push(Tx { ord, t: t_ms, seq: bytes[0] & 15, null: bytes.len() == 4, bytes, classes, epoch: sim.epoch });
+                        hist.push(format!(
+                            "t={t_ms} <- unsol seq={} {} classes={classes:?}",
+                            bytes[0] & 15,
+                            if bytes.len() == 4 { "null" } else { "data" }
+                        ));
+                        txs.push(Tx {
+                            ord,
+                            t: t_ms,
+                            seq: bytes[0] & 15,
+                            null: bytes.len() == 4,
+                            bytes,
+                            classes,
+                            epoch: sim.epoch,
+                        });
                     } else if bytes.len() >= 4 {
-                        hist.push(format!("t={t_ms} <- sol seq={} iin={:02x}{:02x}", bytes[0] & 15, bytes[2], bytes[3]));
-                        let nstatic = ra::decode_response_measurements(&bytes[4..]).map(|(m, _)| m.iter().filter(|x| !x.is_event).count()).unwrap_or(999);
+                        hist.push(format!(
+                            "t={t_ms} <- sol seq={} iin={:02x}{:02x}",
+                            bytes[0] & 15,
+                            bytes[2],
+                            bytes[3]
+                        ));
+                        let nstatic = ra::decode_response_measurements(&bytes[4..])
+                            .map(|(m, _)| m.iter().filter(|x| !x.is_event).count())
+                            .unwrap_or(999);
                         sol_log.push((ord, t_ms, bytes[0] & 15, nstatic));
                         if bytes[0] & ra::CON != 0 {
                             sol_con.push((ord, t_ms));
@@ -128,7 +158,11 @@ async fn scenario(a: &ShardArgs, idx: u64) {
                 if let Some(last) = txs.last() {
                     let s = last.seq;
                     hist.push(format!("t={now} -> unsol CONFIRM seq={s}"));
-                    marks.push(Mark { ord: crate::verif::io::bump(), t: now, k: MK::Confirm(s) });
+                    marks.push(Mark {
+                        ord: crate::verif::io::bump(),
+                        t: now,
+                        k: MK::Confirm(s),
+                    });
                     sim.send(&ra::B::confirm(s, true).done());
                     settle().await;
                 }
@@ -136,7 +170,11 @@ async fn scenario(a: &ShardArgs, idx: u64) {
             2 => {
                 // wrong confirms
                 if let Some(last) = txs.last() {
-                    let c = if r.bool() { ra::B::confirm((last.seq + r.range(1, 15) as u8) & 15, true).done() } else { ra::B::confirm(last.seq, false).done() };
+                    let c = if r.bool() {
+                        ra::B::confirm((last.seq + r.range(1, 15) as u8) & 15, true).done()
+                    } else {
+                        ra::B::confirm(last.seq, false).done()
+                    };
                     hist.push(format!("t={now} -> wrong CONFIRM {}", hex(&c)));
                     sim.send(&c);
                     settle().await;
@@ -147,8 +185,18 @@ async fn scenario(a: &ShardArgs, idx: u64) {
                 let i = r.below(9) as u16;
                 vcount += 1;
                 let v = vcount as f64;
-                marks.push(Mark { ord: crate::verif::io::bump(), t: now, k: MK::Update((i % 3) as u8 + 1) });
-                sim.db(|db| db.update(i, &AnalogInput::new(v, Flags::ONLINE, Time::synchronized(1000 + vcount)), UpdateOptions::detect_event()));
+                marks.push(Mark {
+                    ord: crate::verif::io::bump(),
+                    t: now,
+                    k: MK::Update((i % 3) as u8 + 1),
+                });
+                sim.db(|db| {
+                    db.update(
+                        i,
+                        &AnalogInput::new(v, Flags::ONLINE, Time::synchronized(1000 + vcount)),
+                        UpdateOptions::detect_event(),
+                    )
+                });
                 hist.push(format!("t={now} update index {i} (class {})", i % 3 + 1));
                 settle().await;
             }
@@ -156,49 +204,101 @@ async fn scenario(a: &ShardArgs, idx: u64) {
                 let enable = r.chance(3, 4);
                 seq = (seq + 1) & 15;
                 let mut set = [false; 3];
-                let mut b = ra::B::request(if enable { ra::F_ENABLE_UNSOL } else { ra::F_DISABLE_UNSOL }, seq);
+                let mut b = ra::B::request(
+                    if enable {
+                        ra::F_ENABLE_UNSOL
+                    } else {
+                        ra::F_DISABLE_UNSOL
+                    },
+                    seq,
+                );
                 for k in 0..3 {
                     if r.bool() {
                         set[k] = true;
                         b = b.all(60, k as u8 + 2);
                     }
                 }
-                hist.push(format!("t={now} -> {} {set:?} seq={seq}", if enable { "ENABLE" } else { "DISABLE" }));
+                hist.push(format!(
+                    "t={now} -> {} {set:?} seq={seq}",
+                    if enable { "ENABLE" } else { "DISABLE" }
+                ));
                 let o = crate::verif::io::bump();
-                marks.push(Mark { ord: o, t: now, k: if enable { MK::Enable(set) } else { MK::Disable(set) } });
-                marks.push(Mark { ord: o, t: now, k: MK::OtherRequest(seq) });
+                marks.push(Mark {
+                    ord: o,
+                    t: now,
+                    k: if enable {
+                        MK::Enable(set)
+                    } else {
+                        MK::Disable(set)
+                    },
+                });
+                marks.push(Mark {
+                    ord: o,
+                    t: now,
+                    k: MK::OtherRequest(seq),
+                });
                 sim.send(&b.done());
                 settle().await;
             }
             6 => {
                 seq = (seq + 1) & 15;
                 let (rq, nstat, what) = match r.below(3) {
-                    0 => (ra::B::request(ra::F_READ, seq).all(60, 1).done(), 9usize, "class 0"),
-                    1 => (ra::B::request(ra::F_READ, seq).range8(30, 0, 0, 1, &[]).done(), 2, "g30v0 [0,1]"),
-                    _ => (ra::B::request(ra::F_READ, seq).all(60, 2).done(), 0, "class 1"),
+                    0 => (
+                        ra::B::request(ra::F_READ, seq).all(60, 1).done(),
+                        9usize,
+                        "class 0",
+                    ),
+                    1 => (
+                        ra::B::request(ra::F_READ, seq)
+                            .range8(30, 0, 0, 1, &[])
+                            .done(),
+                        2,
+                        "g30v0 [0,1]",
+                    ),
+                    _ => (
+                        ra::B::request(ra::F_READ, seq).all(60, 2).done(),
+                        0,
+                        "class 1",
+                    ),
                 };
                 hist.push(format!("t={now} -> READ {what} seq={seq}"));
-                marks.push(Mark { ord: crate::verif::io::bump(), t: now, k: MK::Read(seq, nstat) });
+                marks.push(Mark {
+                    ord: crate::verif::io::bump(),
+                    t: now,
+                    k: MK::Read(seq, nstat),
+                });
                 sim.send(&rq);
                 settle().await;
             }
             7 => {
                 seq = (seq + 1) & 15;
                 hist.push(format!("t={now} -> DELAY_MEASURE seq={seq}"));
-                marks.push(Mark { ord: crate::verif::io::bump(), t: now, k: MK::OtherRequest(seq) });
+                marks.push(Mark {
+                    ord: crate::verif::io::bump(),
+                    t: now,
+                    k: MK::OtherRequest(seq),
+                });
                 sim.send(&ra::B::request(ra::F_DELAY_MEASURE, seq).done());
                 settle().await;
             }
             8 => {
                 hist.push(format!("t={now} reconnect close"));
                 collect!();
-                marks.push(Mark { ord: crate::verif::io::bump(), t: now, k: MK::Reconnect });
+                marks.push(Mark {
+                    ord: crate::verif::io::bump(),
+                    t: now,
+                    k: MK::Reconnect,
+                });
                 sim.reconnect_close().await;
             }
             _ => {
                 hist.push(format!("t={now} reconnect preempt"));
                 collect!();
-                marks.push(Mark { ord: crate::verif::io::bump(), t: now, k: MK::Reconnect });
+                marks.push(Mark {
+                    ord: crate::verif::io::bump(),
+                    t: now,
+                    k: MK::Reconnect,
+                });
                 sim.reconnect_preempt().await;
             }
         }
@@ -215,8 +315,18 @@ async fn scenario(a: &ShardArgs, idx: u64) {
             P,
             &format!("C14.{rule}"),
             sig,
-            J::obj(vec![("why", J::s(why)), ("config", cfg.to_json()), ("history", J::arr(hist.iter().cloned()))]),
-            J::obj(vec![("check", J::s("c14")), ("seed", J::U(a.seed)), ("shard", J::U(a.shard)), ("nshards", J::U(a.nshards)), ("scenario", J::U(idx))]),
+            J::obj(vec![
+                ("why", J::s(why)),
+                ("config", cfg.to_json()),
+                ("history", J::arr(hist.iter().cloned())),
+            ]),
+            J::obj(vec![
+                ("check", J::s("c14")),
+                ("seed", J::U(a.seed)),
+                ("shard", J::U(a.shard)),
+                ("nshards", J::U(a.nshards)),
+                ("scenario", J::U(idx)),
+            ]),
         );
     };
     out::eval(1);
@@ -228,14 +338,19 @@ async fn scenario(a: &ShardArgs, idx: u64) {
         if matches!(marks[i].k, MK::Enable(_) | MK::Disable(_)) {
             // the companion OtherRequest mark carries the sequence number
             if let Some(MK::OtherRequest(sq)) = marks.get(i + 1).map(|m| m.k.clone()) {
-                if let Some(resp) = sol_log.iter().find(|(o, ts, ss, _)| *ss == sq && *o > marks[i].ord && *ts == marks[i].t) {
+                if let Some(resp) = sol_log
+                    .iter()
+                    .find(|(o, ts, ss, _)| *ss == sq && *o > marks[i].ord && *ts == marks[i].t)
+                {
                     marks[i].ord = resp.0;
                 }
             }
         }
     }
     let marks = marks;
-    let between = |lo: u64, hi: u64, f: &dyn Fn(&MK) -> bool| marks.iter().any(|m| m.ord > lo && m.ord < hi && f(&m.k));
+    let between = |lo: u64, hi: u64, f: &dyn Fn(&MK) -> bool| {
+        marks.iter().any(|m| m.ord > lo && m.ord < hi && f(&m.k))
+    };
     let reconnect_between = |lo: u64, hi: u64| between(lo, hi, &|k| *k == MK::Reconnect);
     let disable_between = |lo: u64, hi: u64| between(lo, hi, &|k| matches!(k, MK::Disable(_)));
     // the unsolicited response `tx` (index i) was confirmed while it was outstanding: a matching confirm sent
@@ -243,7 +358,14 @@ async fn scenario(a: &ShardArgs, idx: u64) {
     let confirm_of = |i: usize| -> Option<&Mark> {
         let tx = &txs[i];
         let hi = txs.get(i + 1).map(|n| n.ord).unwrap_or(u64::MAX);
-        marks.iter().find(|m| m.ord > tx.ord && m.ord < hi && m.k == MK::Confirm(tx.seq) && m.t < tx.t + t_c && !reconnect_between(tx.ord, m.ord) && !disable_between(tx.ord, m.ord))
+        marks.iter().find(|m| {
+            m.ord > tx.ord
+                && m.ord < hi
+                && m.k == MK::Confirm(tx.seq)
+                && m.t < tx.t + t_c
+                && !reconnect_between(tx.ord, m.ord)
+                && !disable_between(tx.ord, m.ord)
+        })
     };
 
     // U1: until a null response has been confirmed only nulls, each with a fresh sequence
@@ -257,7 +379,16 @@ async fn scenario(a: &ShardArgs, idx: u64) {
             break;
         }
         if i > 0 && tx.seq != (txs[i - 1].seq + 1) & 15 {
-            viol("U1_null_sequence", "seq", format!("null unsolicited at t={} has sequence {} after {}", tx.t, tx.seq, txs[i - 1].seq));
+            viol(
+                "U1_null_sequence",
+                "seq",
+                format!(
+                    "null unsolicited at t={} has sequence {} after {}",
+                    tx.t,
+                    tx.seq,
+                    txs[i - 1].seq
+                ),
+            );
         } else if i > 0 {
             out::count("U1_fresh_null_sequence_ok", 1);
         }
@@ -290,8 +421,12 @@ async fn scenario(a: &ShardArgs, idx: u64) {
             let k = *c as usize - 1;
             if !e[k] {
                 // was it enabled at any earlier point and the only disables since then are in the same instant?
-                let disabled_same_instant = marks.iter().any(|m| m.ord < tx.ord && m.t == tx.t && matches!(&m.k, MK::Disable(set) if set[k]));
-                let ever_enabled = marks.iter().any(|m| m.ord < tx.ord && matches!(&m.k, MK::Enable(set) if set[k]));
+                let disabled_same_instant = marks.iter().any(|m| {
+                    m.ord < tx.ord && m.t == tx.t && matches!(&m.k, MK::Disable(set) if set[k])
+                });
+                let ever_enabled = marks
+                    .iter()
+                    .any(|m| m.ord < tx.ord && matches!(&m.k, MK::Enable(set) if set[k]));
                 if disabled_same_instant && ever_enabled {
                     out::count("U6_same_instant_excused", 1);
                     continue;
@@ -311,7 +446,14 @@ async fn scenario(a: &ShardArgs, idx: u64) {
             // retry
             same_seq_count += 1;
             if pa.null {
-                viol("U1_null_retried", "null", format!("null unsolicited response seq={} re-sent with the same sequence", pa.seq));
+                viol(
+                    "U1_null_retried",
+                    "null",
+                    format!(
+                        "null unsolicited response seq={} re-sent with the same sequence",
+                        pa.seq
+                    ),
+                );
             }
             if let Some(maxr) = cfg.max_unsol_retries {
                 if same_seq_count > 1 + maxr {
@@ -319,25 +461,67 @@ async fn scenario(a: &ShardArgs, idx: u64) {
                 }
             }
             if pb.t != pa.t + t_c {
-                viol("U4_retry_timing", "timing", format!("retry at t={} but previous transmission at t={} and confirm timeout {t_c}", pb.t, pa.t));
+                viol(
+                    "U4_retry_timing",
+                    "timing",
+                    format!(
+                        "retry at t={} but previous transmission at t={} and confirm timeout {t_c}",
+                        pb.t, pa.t
+                    ),
+                );
             } else {
                 out::count("U4_retry_ok", 1);
             }
             // a deferred read (the last request received during the wait is a READ) stops retries
-            let last_req = marks.iter().filter(|m| m.ord > pa.ord && m.ord < pb.ord && matches!(m.k, MK::Read(_, _) | MK::OtherRequest(_))).last();
-            if let Some(Mark { k: MK::Read(_, _), .. }) = last_req {
-                viol("U7_retry_with_read_pending", "retry", format!("unsolicited retry at t={} although a READ was deferred", pb.t));
+            let last_req = marks
+                .iter()
+                .filter(|m| {
+                    m.ord > pa.ord
+                        && m.ord < pb.ord
+                        && matches!(m.k, MK::Read(_, _) | MK::OtherRequest(_))
+                })
+                .last();
+            if let Some(Mark {
+                k: MK::Read(_, _), ..
+            }) = last_req
+            {
+                viol(
+                    "U7_retry_with_read_pending",
+                    "retry",
+                    format!(
+                        "unsolicited retry at t={} although a READ was deferred",
+                        pb.t
+                    ),
+                );
             }
             continue;
         }
         if pb.seq == pa.seq && !recon {
-            viol("U4_retry_not_identical", "bytes", format!("unsolicited response re-sent with sequence {} but different content at t={}", pa.seq, pb.t));
+            viol(
+                "U4_retry_not_identical",
+                "bytes",
+                format!(
+                    "unsolicited response re-sent with sequence {} but different content at t={}",
+                    pa.seq, pb.t
+                ),
+            );
             continue;
         }
         // a new series
         same_seq_count = 1;
         if pb.seq != (pa.seq + 1) & 15 {
-            viol("U_sequence", if recon { "new-series-after-reconnect" } else { "new-series" }, format!("new unsolicited series has sequence {} after {}", pb.seq, pa.seq));
+            viol(
+                "U_sequence",
+                if recon {
+                    "new-series-after-reconnect"
+                } else {
+                    "new-series"
+                },
+                format!(
+                    "new unsolicited series has sequence {} after {}",
+                    pb.seq, pa.seq
+                ),
+            );
         }
         if recon {
             out::count("new_series_after_reconnect", 1);
@@ -389,10 +573,15 @@ async fn scenario(a: &ShardArgs, idx: u64) {
     for m in &marks {
         match &m.k {
             MK::OtherRequest(s) => {
-                let n = sol_log.iter().filter(|(o, ts, ss, _)| ss == s && *o > m.ord && *ts == m.t).count();
+                let n = sol_log
+                    .iter()
+                    .filter(|(o, ts, ss, _)| ss == s && *o > m.ord && *ts == m.t)
+                    .count();
                 if n == 0 && !between(m.ord, u64::MAX, &|k| *k == MK::Reconnect && false) {
                     // unless the connection was replaced in the same instant right after
-                    let killed = marks.iter().any(|x| x.ord > m.ord && x.t == m.t && x.k == MK::Reconnect);
+                    let killed = marks
+                        .iter()
+                        .any(|x| x.ord > m.ord && x.t == m.t && x.k == MK::Reconnect);
                     if !killed {
                         viol("U7_non_read_not_immediate", "non-read", format!("non-READ request seq={s} sent at t={} was not answered at that instant", m.t));
                     }
@@ -404,10 +593,27 @@ async fn scenario(a: &ShardArgs, idx: u64) {
                 let out_i = outstanding_before(m.ord, m.t);
                 // superseded: another request or a reconnect before it could be served
                 // sequence numbers wrap after 16 requests: a response belongs to this READ only up to the next request that reuses its number
-                let reuse = marks.iter().filter(|k| k.ord > m.ord && matches!(&k.k, MK::Read(s2, _) | MK::OtherRequest(s2) if s2 == s)).map(|k| k.ord).min().unwrap_or(u64::MAX);
-                let answers: Vec<(u64, u64)> = sol_log.iter().filter(|(o, ts, ss, _)| ss == s && *o > m.ord && *o < reuse && *ts <= m.t + t_c).map(|x| (x.0, x.1)).collect();
+                let reuse = marks
+                    .iter()
+                    .filter(|k| {
+                        k.ord > m.ord
+                            && matches!(&k.k, MK::Read(s2, _) | MK::OtherRequest(s2) if s2 == s)
+                    })
+                    .map(|k| k.ord)
+                    .min()
+                    .unwrap_or(u64::MAX);
+                let answers: Vec<(u64, u64)> = sol_log
+                    .iter()
+                    .filter(|(o, ts, ss, _)| {
+                        ss == s && *o > m.ord && *o < reuse && *ts <= m.t + t_c
+                    })
+                    .map(|x| (x.0, x.1))
+                    .collect();
                 // content: the (first fragment of the) answer carries what THIS request selects
-                if let Some(ans) = sol_log.iter().find(|(o, ts, ss, _)| ss == s && *o > m.ord && *o < reuse && *ts <= m.t + t_c) {
+                if let Some(ans) = sol_log
+                    .iter()
+                    .find(|(o, ts, ss, _)| ss == s && *o > m.ord && *o < reuse && *ts <= m.t + t_c)
+                {
                     if ans.3 != *nstat {
                         viol("U7_read_content", if out_i_is_some(&txs, m.ord) { "deferred" } else { "idle" }, format!("READ seq={s} at t={} selects {nstat} static objects but its response carries {}", m.t, ans.3));
                     } else {
@@ -415,14 +621,22 @@ async fn scenario(a: &ShardArgs, idx: u64) {
                     }
                 }
                 let first_answer_ord = answers.first().map(|x| x.0).unwrap_or(u64::MAX);
-                let superseded = marks.iter().any(|x| x.ord > m.ord && x.ord < first_answer_ord && x.t <= m.t + t_c && matches!(x.k, MK::Read(_, _) | MK::OtherRequest(_) | MK::Reconnect));
+                let superseded = marks.iter().any(|x| {
+                    x.ord > m.ord
+                        && x.ord < first_answer_ord
+                        && x.t <= m.t + t_c
+                        && matches!(x.k, MK::Read(_, _) | MK::OtherRequest(_) | MK::Reconnect)
+                });
                 match out_i {
                     Some(i) => {
                         // answered only after the series ended: after a confirm of it, a timeout, or a DISABLE
                         let x = &txs[i];
                         let ended_ord = marks
                             .iter()
-                            .filter(|k| k.ord > m.ord && (k.k == MK::Confirm(x.seq) || matches!(k.k, MK::Disable(_))))
+                            .filter(|k| {
+                                k.ord > m.ord
+                                    && (k.k == MK::Confirm(x.seq) || matches!(k.k, MK::Disable(_)))
+                            })
                             .map(|k| k.ord)
                             .next()
                             .unwrap_or(u64::MAX);
@@ -430,7 +644,15 @@ async fn scenario(a: &ShardArgs, idx: u64) {
                             if *ao < ended_ord && *at < x.t + t_c {
                                 viol("U7_read_answered_during_wait", "during", format!("READ seq={s} sent at t={} during an unsolicited confirm wait was answered at t={at}, before the series ended", m.t));
                             } else if answers.len() > 1 {
-                                viol("U7_deferred_read_answered_twice", "twice", format!("READ seq={s} deferred at t={} answered {} times", m.t, answers.len()));
+                                viol(
+                                    "U7_deferred_read_answered_twice",
+                                    "twice",
+                                    format!(
+                                        "READ seq={s} deferred at t={} answered {} times",
+                                        m.t,
+                                        answers.len()
+                                    ),
+                                );
                             } else {
                                 out::count("U7_deferred_read_served_ok", 1);
                             }
@@ -466,7 +688,10 @@ async fn scenario(a: &ShardArgs, idx: u64) {
                 let last = txs.iter().rposition(|x| x.ord < m.ord);
                 let ready = match last {
                     None => true,
-                    Some(i) => confirm_of(i).map(|k| k.ord < m.ord).unwrap_or(false) && !reconnect_between(txs[i].ord, m.ord),
+                    Some(i) => {
+                        confirm_of(i).map(|k| k.ord < m.ord).unwrap_or(false)
+                            && !reconnect_between(txs[i].ord, m.ord)
+                    }
                 };
                 // the session may be waiting for the confirmation of a solicited response
                 let in_sol_wait = sol_con.iter().any(|(o, t)| *o < m.ord && *t + t_c > m.t);
@@ -474,7 +699,9 @@ async fn scenario(a: &ShardArgs, idx: u64) {
                     continue;
                 }
                 // nothing else in the same instant that could occupy the session (requests, reconnects)
-                let quiet = !marks.iter().enumerate().any(|(j, x)| j != mi && x.t == m.t && !matches!(x.k, MK::Update(_) | MK::Confirm(_)));
+                let quiet = !marks.iter().enumerate().any(|(j, x)| {
+                    j != mi && x.t == m.t && !matches!(x.k, MK::Update(_) | MK::Confirm(_))
+                });
                 if !quiet {
                     continue;
                 }
@@ -489,9 +716,18 @@ async fn scenario(a: &ShardArgs, idx: u64) {
         }
     }
     let null_confirmed_t = null_confirmed_ord;
-    out::distinct(&format!("retries{:?}/T{t_c}/D{d_r}/txs{}/nullconf{}", cfg.max_unsol_retries, txs.len().min(8), null_confirmed_t.is_some()));
+    out::distinct(&format!(
+        "retries{:?}/T{t_c}/D{d_r}/txs{}/nullconf{}",
+        cfg.max_unsol_retries,
+        txs.len().min(8),
+        null_confirmed_t.is_some()
+    ));
     for p in crate::verif::util::take_panics() {
-        viol("panic", &crate::verif::util::norm_location(&p.location), format!("panic {} at {}", p.message, p.location));
+        viol(
+            "panic",
+            &crate::verif::util::norm_location(&p.location),
+            format!("panic {} at {}", p.message, p.location),
+        );
     }
     if a.replay.is_some() {
         for h in &hist {
@@ -499,12 +735,18 @@ async fn scenario(a: &ShardArgs, idx: u64) {
         }
     }
     if out::sample_count() < 2 && txs.len() > 3 {
-        out::sample(J::obj(vec![("config", cfg.to_json()), ("history", J::arr(hist.iter().cloned()))]));
+        out::sample(J::obj(vec![
+            ("config", cfg.to_json()),
+            ("history", J::arr(hist.iter().cloned())),
+        ]));
     }
 }
 
 pub fn run(a: &ShardArgs) -> Result<(), String> {
-    let only: Option<u64> = a.replay.as_ref().and_then(|p| super::common::replay_scenario(p));
+    let only: Option<u64> = a
+        .replay
+        .as_ref()
+        .and_then(|p| super::common::replay_scenario(p));
     let n = a.n(8000);
     for idx in 0..n {
         if idx % a.nshards != a.shard {
